@@ -470,6 +470,144 @@ async fn c22_participant_leaves(ctx: Ctx) {
     }
 }
 
+// ---- C16 -----------------------------------------------------------------------------------------------------------
+/// a remote participant with TWO readers matched to one local writer departs as a whole (lease expiry / ignored)
+async fn c16_two_readers_depart(ctx: Ctx, how: u8) {
+    let f = ctx.factory("", Some(200));
+    crate::sim::with(|w| w.net.rewrite = Some(Box::new(|d| if d.meta { crate::s_acks::patch_lease(&d.bytes, 1) } else { None })));
+    let n1 = node::<KeyedData>(&f, 0, "T").await;
+    let n2 = node::<KeyedData>(&f, 0, "T").await;
+    let w = n1.publisher.create_datawriter::<KeyedData>(&n1.topic, QosKind::Specific(reliable_w(HistoryQosPolicyKind::KeepAll, Some(100))), NO_LISTENER, NO_STATUS).await.expect("w");
+    let ra = n2.subscriber.create_datareader::<KeyedData>(&n2.topic, QosKind::Specific(reliable_r(HistoryQosPolicyKind::KeepAll)), NO_LISTENER, NO_STATUS).await.expect("ra");
+    let rb = n2.subscriber.create_datareader::<KeyedData>(&n2.topic, QosKind::Specific(reliable_r(HistoryQosPolicyKind::KeepAll)), NO_LISTENER, NO_STATUS).await.expect("rb");
+    if !wait_pub_matched(&ctx, &w, 2, 3000).await {
+        ctx.violation("setup/no-match", "the writer did not match both readers");
+        return;
+    }
+    let _ = w.get_publication_matched_status().await;
+    if how == 0 {
+        ctx.blackhole(1, true); // lease (patched to 1 s) runs out
+        ctx.sleep_ms(2500).await;
+    } else {
+        n1.participant.ignore_participant(n2.participant.get_instance_handle()).await.expect("ignore_participant");
+        ctx.sleep_ms(500).await;
+    }
+    let list = w.get_matched_subscriptions().await.unwrap_or_default();
+    let st = w.get_publication_matched_status().await.expect("status");
+    let tag = if how == 0 { "lease-expired" } else { "ignored" };
+    if !list.is_empty() || st.current_count != 0 {
+        ctx.violation(format!("participant-with-two-readers-departed/{tag}/still-matched"), format!("both readers belonged to the departed participant: matched list has {} entries, current_count = {}, current_count_change = {}", list.len(), st.current_count, st.current_count_change));
+    } else if st.current_count_change != -2 {
+        ctx.violation(format!("participant-with-two-readers-departed/{tag}/current_count_change"), format!("{}", st.current_count_change));
+    }
+    let _ = (ra, rb);
+}
+
+// ---- C27 -----------------------------------------------------------------------------------------------------------
+/// two reliable readers, the acknowledgements of one of them are lost: a KEEP_LAST(1) write of the same instance must not
+/// complete (and must not evict the unacknowledged sample) before that reader has acknowledged
+async fn c27_two_readers(ctx: Ctx) {
+    let f = ctx.factory("", None);
+    let n1 = node::<KeyedData>(&f, 0, "T").await;
+    let n2 = node::<KeyedData>(&f, 0, "T").await;
+    let n3 = node::<KeyedData>(&f, 0, "T").await;
+    let w = n1.publisher.create_datawriter::<KeyedData>(&n1.topic, QosKind::Specific(reliable_w(HistoryQosPolicyKind::KeepLast(1), Some(400))), NO_LISTENER, NO_STATUS).await.expect("w");
+    let ra = n2.subscriber.create_datareader::<KeyedData>(&n2.topic, QosKind::Specific(reliable_r(HistoryQosPolicyKind::KeepAll)), NO_LISTENER, NO_STATUS).await.expect("ra");
+    let rb = n3.subscriber.create_datareader::<KeyedData>(&n3.topic, QosKind::Specific(reliable_r(HistoryQosPolicyKind::KeepAll)), NO_LISTENER, NO_STATUS).await.expect("rb");
+    if !wait_pub_matched(&ctx, &w, 2, 3000).await || !wait_sub_matched(&ctx, &ra, 1, 3000).await || !wait_sub_matched(&ctx, &rb, 1, 3000).await {
+        ctx.violation("setup/no-match", "no match");
+        return;
+    }
+    // reader b (participant index 2) receives nothing and acknowledges nothing: all user traffic to and from it is dropped
+    crate::sim::with(|wd| wd.net.filter = Some(Box::new(|d, _m| !d.meta && (d.dst == 2 || d.src == 2))));
+    w.write(sample(1, 0, 8), None).await.expect("first write");
+    ctx.sleep_ms(300).await; // reader a has acknowledged, reader b has not
+    let t0 = ctx.now();
+    let res = w.write(sample(1, 1, 8), None).await;
+    let took_ms = (ctx.now() - t0) / crate::sim::MS;
+    match res {
+        Err(DdsError::Timeout) if took_ms >= 350 => {}
+        other => ctx.violation("two-readers/write-did-not-block-for-the-slower-reader", format!("KEEP_LAST(1), sample 0 acknowledged by reader a only; the next write of the instance returned {other:?} after {took_ms} ms (max_blocking_time 400 ms)")),
+    }
+    // the network heals: reader b must still get sample 0 (it was not evicted) before anything newer
+    crate::sim::with(|wd| wd.net.filter = None);
+    ctx.sleep_ms(1000).await;
+    let gb = seqs(&take_all(&rb).await);
+    if !gb.contains(&(1, 0)) {
+        ctx.violation("two-readers/unacknowledged-sample-evicted", format!("reader b, whose acknowledgement was outstanding, finally received {gb:?}"));
+    }
+    let _ = ra;
+}
+
+// ---- C33 (writer side) -----------------------------------------------------------------------------------------------
+type WLog = Arc<Mutex<Vec<String>>>;
+struct LvW(WLog);
+impl dust_dds::dds_async::data_writer_listener::DataWriterListener<KeyedData> for LvW {
+    fn on_offered_incompatible_qos(&mut self, _w: DataWriterAsync<KeyedData>, _s: dust_dds::infrastructure::status::OfferedIncompatibleQosStatus) -> impl std::future::Future<Output = ()> + Send {
+        self.0.lock().unwrap().push("writer:offered_incompatible_qos".into());
+        core::future::ready(())
+    }
+    fn on_publication_matched(&mut self, _w: DataWriterAsync<KeyedData>, _s: dust_dds::infrastructure::status::PublicationMatchedStatus) -> impl std::future::Future<Output = ()> + Send {
+        self.0.lock().unwrap().push("writer:publication_matched".into());
+        core::future::ready(())
+    }
+}
+struct LvP(WLog);
+impl dust_dds::dds_async::publisher_listener::PublisherListener for LvP {
+    fn on_offered_incompatible_qos(&mut self, _w: DataWriterAsync<()>, _s: dust_dds::infrastructure::status::OfferedIncompatibleQosStatus) -> impl std::future::Future<Output = ()> + Send {
+        self.0.lock().unwrap().push("publisher:offered_incompatible_qos".into());
+        core::future::ready(())
+    }
+    fn on_publication_matched(&mut self, _w: DataWriterAsync<()>, _s: dust_dds::infrastructure::status::PublicationMatchedStatus) -> impl std::future::Future<Output = ()> + Send {
+        self.0.lock().unwrap().push("publisher:publication_matched".into());
+        core::future::ready(())
+    }
+}
+struct LvD(WLog);
+impl dust_dds::dds_async::domain_participant_listener::DomainParticipantListener for LvD {
+    fn on_offered_incompatible_qos(&mut self, _w: DataWriterAsync<()>, _s: dust_dds::infrastructure::status::OfferedIncompatibleQosStatus) -> impl std::future::Future<Output = ()> + Send {
+        self.0.lock().unwrap().push("participant:offered_incompatible_qos".into());
+        core::future::ready(())
+    }
+    fn on_publication_matched(&mut self, _w: DataWriterAsync<()>, _s: dust_dds::infrastructure::status::PublicationMatchedStatus) -> impl std::future::Future<Output = ()> + Send {
+        self.0.lock().unwrap().push("participant:publication_matched".into());
+        core::future::ready(())
+    }
+}
+/// all 3 x 4 x 4 mask configurations of (writer, publisher, participant) x {no listener, {}, {status}, {other}} ... reduced to
+/// the mask sets {none, OfferedIncompatibleQos, PublicationMatched, both} per level, every level with a listener
+async fn c33_writer_chain(ctx: Ctx) {
+    let masks: [&[StatusKind]; 4] = [&[], &[StatusKind::OfferedIncompatibleQos], &[StatusKind::PublicationMatched], &[StatusKind::OfferedIncompatibleQos, StatusKind::PublicationMatched]];
+    let cfg = ctx.choose(b'O', 64);
+    let (mw, mp, md) = (cfg % 4, (cfg / 4) % 4, cfg / 16);
+    let f = ctx.factory("", None);
+    let log: WLog = Arc::new(Mutex::new(vec![]));
+    let p1 = f.create_participant(0, QosKind::Default, Some(LvD(log.clone())), masks[md]).await.expect("p1");
+    let t1 = p1.create_topic::<KeyedData>("T", "T", QosKind::Default, NO_LISTENER, NO_STATUS).await.expect("t1");
+    let publ = p1.create_publisher(QosKind::Default, Some(LvP(log.clone())), masks[mp]).await.expect("publisher");
+    let mut wq = reliable_w(HistoryQosPolicyKind::KeepAll, Some(100));
+    wq.reliability.kind = ReliabilityQosPolicyKind::BestEffort;
+    let w = publ.create_datawriter::<KeyedData>(&t1, QosKind::Specific(wq), Some(LvW(log.clone())), masks[mw]).await.expect("writer");
+    // a compatible (best-effort) and an incompatible (reliable) remote reader
+    let n2 = node::<KeyedData>(&f, 0, "T").await;
+    let _rc = n2.subscriber.create_datareader::<KeyedData>(&n2.topic, QosKind::Specific(best_effort_r(HistoryQosPolicyKind::KeepAll)), NO_LISTENER, NO_STATUS).await.expect("rc");
+    let _ri = n2.subscriber.create_datareader::<KeyedData>(&n2.topic, QosKind::Specific(reliable_r(HistoryQosPolicyKind::KeepAll)), NO_LISTENER, NO_STATUS).await.expect("ri");
+    ctx.sleep_ms(1500).await;
+    let l = log.lock().unwrap().clone();
+    for (status, bit) in [("offered_incompatible_qos", 1usize), ("publication_matched", 2)] {
+        let enabled = |m: usize| m & bit != 0;
+        let expected = if enabled(mw) { Some("writer") } else if enabled(mp) { Some("publisher") } else if enabled(md) { Some("participant") } else { None };
+        let got: Vec<&String> = l.iter().filter(|x| x.ends_with(status)).collect();
+        let levels: Vec<&str> = got.iter().map(|x| x.split(':').next().unwrap()).collect();
+        match expected {
+            None if !levels.is_empty() => ctx.violation(format!("writer-side/{status}/unexpected-callback"), format!("masks writer={mw} publisher={mp} participant={md}: no level enables the status, called {levels:?}")),
+            Some(e) if levels != vec![e] => ctx.violation(format!("writer-side/{status}/expected={e}/got={}", if levels.is_empty() { "none".to_string() } else { levels.join("+") }), format!("masks (bit 1 = OfferedIncompatibleQos, bit 2 = PublicationMatched) writer={mw} publisher={mp} participant={md}: exactly one call at the most specific enabled level expected, got {levels:?}")),
+            _ => {}
+        }
+    }
+    let _ = w;
+}
+
 pub fn extra(id: &str) -> Vec<Scenario> {
     let mut v: Vec<Scenario> = vec![];
     let mut add = |name: String, s: Scenario| {
@@ -500,10 +638,17 @@ pub fn extra(id: &str) -> Vec<Scenario> {
         "C30" => add("old-ts".into(), Scenario::new("C30.audit[old-source-timestamp]".to_string(), 0, c30_old_timestamp)),
         "C32" => add("enable".into(), Scenario::new("C32.audit[enabled-after-status-change]".to_string(), 0, c32_enable_after_data)),
         "C33" => {
+            add("wchain".into(), Scenario::new("C33.audit[writer-side-chain]".to_string(), 99, c33_writer_chain));
             for rs in [true, false] {
                 add("unmatch".into(), Scenario::new(format!("C33.audit[unmatch,reader_side={rs}]"), 0, move |ctx| c33_unmatch(ctx, rs)));
             }
         }
+        "C16" => {
+            for (k, n) in [(0u8, "lease-expired"), (1, "ignored")] {
+                add(n.into(), Scenario::new(format!("C16.audit[participant-with-two-readers-departs,{n}]"), 0, move |ctx| c16_two_readers_depart(ctx, k)));
+            }
+        }
+        "C27" => add("two".into(), Scenario::new("C27.audit[two-reliable-readers-one-silent]".to_string(), 0, c27_two_readers)),
         "C37" => add("topic".into(), Scenario::new("C37.audit[topic-publisher-subscriber]".to_string(), 0, c37_topic_publisher)),
         "C26" => {
             add("rhs".into(), Scenario::new("C26.audit[second-parameter]".to_string(), 0, |ctx| c26_rhs(ctx, "x <= %1", &["100", "5"], |d| d.x <= 5)));
